@@ -51,8 +51,15 @@ def specs(tier):
                                 if foreign and tier == "quick" and (inv == 1 or pre + post > 3):
                                     continue
                                 idx = len(out)
+                                # check_on of the invariants rotates: CALL only / ALL+SETATTR / SETATTR+ALL / CALL+ALL (per level, cut to its number)
+                                lv_on = []
+                                for li, lv in enumerate(levels):
+                                    lv = dict(lv)
+                                    if lv.get("inv") and kind != "pset":  # (assignment to a property under SETATTR invariants: C03, KF-C03-3)
+                                        lv["inv_on"] = ("CC", "AS", "SA", "CA")[(idx // 4 + li) % 4][:lv["inv"]]
+                                    lv_on.append(lv)
                                 out.append({
-                                    "kind": kind, "is_async": is_async, "dbc": dbc, "levels": levels,
+                                    "kind": kind, "is_async": is_async, "dbc": dbc, "levels": lv_on,
                                     "style": (("def", "lambda", "adef", "amix")[idx % 4] if is_async else ("def", "lambda")[idx % 2]),
                                     "err": ("default", "cls", "fac", "inst")[(idx // 2) % 4],
                                     "layout": ("grouped", "interleaved")[(idx // 8) % 2],
@@ -246,18 +253,110 @@ def check_multi(acc):
             core.unload_source(ns)
 
 
+# ---------------------------------------------------------------------------------------------------------------
+# a violated lambda is re-evaluated ONCE for its message: helpers called inside it run at most twice as often as in one evaluation
+
+REEVAL_SHAPES = [
+    "h('a', x)", "h('a', x) and h('b', x)", "h('a', not x) and h('b', x)", "not h('a', not x)", "h('a', x) == 1", "h('a', h('b', x))",
+    "all(h('a', v) for v in [x, x])", "all(h('a', v) for v in [1, x, 1])", "any(h('a', v) for v in [x, x])", "all(all(h('a', w) for w in [1, v]) for v in [1, x])",
+    "all(h('a', v) for v in [1, 1]) and h('b', x)", "[h('a', v) for v in [x, 1]][0]", "all([h('a', v) for v in [1, x]])", "len([v for v in [1, x] if h('a', v)]) > 1",
+    "h('a', 1 if h('b', x) else 2) and False", "(t := h('a', x)) and t", "all(h('a', v) and h('b', v) for v in [1, x])", "all(h('a', v) for v in [1] if h('b', x))  and False",
+    "all(h('a', v) for v in [1, 2]) and all(h('b', v) for v in [1, x])", "sum(h('a', v) for v in [x, 1]) > 5", "h('a', x) if h('b', 1) else h('c', 1)",
+]
+REEVAL_SRC = '''\
+import icontract
+CALLS = []
+class MyErr(Exception): pass
+def h(tag, v):
+    CALLS.append(tag)
+    return v
+def RUN(c):
+    try:
+        c.send(None)
+    except StopIteration as e:
+        return e.value
+    raise AssertionError("suspended")
+'''
+
+
+def check_reeval(acc):
+    import icontract
+    w = [REEVAL_SRC]
+    progs = []
+    for si, shape in enumerate(REEVAL_SHAPES):
+        for role in ("pre", "post", "inv"):
+            for err in ("", ", error=MyErr"):
+                for adef in ("def", "async def"):
+                    name = "f{}".format(len(progs))
+                    if role == "inv":
+                        if adef != "def":
+                            continue
+                        w.append("@icontract.invariant(lambda self: {}{})\nclass {}:\n    def __init__(self, x):\n        self.x = x\n".format(
+                            shape.replace("x)", "self.x)").replace("x]", "self.x]").replace("x,", "self.x,").replace("not x", "not self.x"), err, name))
+                    elif role == "pre":
+                        w.append("@icontract.require(lambda x: {}{})\n{} {}(x):\n    return x\n".format(shape, err, adef, name))
+                    else:
+                        w.append("@icontract.ensure(lambda x, result: {}{})\n{} {}(x):\n    return x\n".format(shape, err, adef, name))
+                    progs.append((name, shape, role, err, adef))
+    src = "".join(w)
+    ns = core.fresh_ctx_run(core.load_source, src, "c16r")
+    try:
+        for name, shape, role, err, adef in progs:
+            for x in (0, 1):
+                # one evaluation by Python itself
+                del ns["CALLS"][:]
+                try:
+                    value = eval(shape, {"h": ns["h"], "x": x})
+                except Exception:
+                    continue
+                once = list(ns["CALLS"])
+                del ns["CALLS"][:]
+
+                def call():
+                    try:
+                        r = ns[name](x)
+                        if adef != "def":
+                            ns["RUN"](r)
+                        return "ret"
+                    except BaseException as e:  # noqa
+                        return type(e).__name__
+                out = core.fresh_ctx_run(call)
+                calls = list(ns["CALLS"])
+                acc.case(("reeval", name, x), True, len(calls), out)
+                feats = {"part": "reeval", "role": role, "err": err or "default", "adef": adef, "shape": shape, "falsy": not value}
+                want_exc = ("MyErr" if err else "ViolationError") if not value else "ret"
+                bad = None
+                if out != want_exc:
+                    bad = ("reeval_outcome", "expected {} got {}".format(want_exc, out))
+                else:
+                    for tag in sorted(set(once) | set(calls)):
+                        limit = once.count(tag) * (2 if not value else 1)
+                        if calls.count(tag) > limit or calls.count(tag) < once.count(tag):
+                            bad = ("condition_parts_evaluated_too_often", "helper {!r}: {} calls in one evaluation by Python, {} during the check (allowed {}..{})".format(
+                                tag, once.count(tag), calls.count(tag), once.count(tag), limit))
+                            break
+                if bad:
+                    acc.violation(core.Violation(PROP, bad[0], feats, "{} {} `{}` x={}: {}".format(role, adef, shape, x, bad[1]), spec={"reeval": True},
+                                                 script=src))
+        acc.sample({"part": "reeval", "shapes": len(REEVAL_SHAPES)}, cap=1)
+    finally:
+        core.unload_source(ns)
+
+
 def work(chunk):
     acc = core.Acc()
     for spec in chunk:
         if spec == "multi":
             check_multi(acc)
+        elif spec == "reeval":
+            check_reeval(acc)
         else:
             famcheck.check_spec(PROP, spec, acc, ROLES, params, symptom_of, nontrivial)
     return acc.result()
 
 
 def run(tier, t0):
-    sp = core.rotate(specs(tier)) + ["multi"]
+    sp = core.rotate(specs(tier)) + ["multi", "reeval"]
     tot = core.merge(core.pmap(work, sp))
     return core.finish(
         PROP, tier, tot, t0,
@@ -268,16 +367,20 @@ def run(tier, t0):
         assumptions=["family F has single inheritance chains; for several bases (diamond in both base orders, two unrelated bases; sync/async) the "
                      "precedence 'inherited before own' and the first-failure error are checked on three hand-written hierarchies x all "
                      "sets of <=3 falsy postconditions; every condition at most once per check also when it reaches the class over two paths",
-                     "a violated lambda condition may be re-evaluated once (documented)"],
+                     "a violated lambda condition may be re-evaluated once (documented); a separate part counts the calls of helpers inside "
+                     "{} lambda shapes (boolean operators, all/any over generators, nested quantifiers, comprehensions, conditional and named "
+                     "expressions) x role x error form x sync/async x falsy/truthy argument: at most twice the calls of one evaluation by Python when "
+                     "violated, exactly those of one evaluation otherwise".format(len(REEVAL_SHAPES))],
         bounds={"programs": len(sp), "max_stack": 3, "max_levels": 3},
     )
 
 
 def replay(path):
     import json
-    if "multi" in json.load(open(path))["spec"]:
+    spec_ = json.load(open(path))["spec"]
+    if "multi" in spec_ or "reeval" in spec_:
         acc = core.Acc()
-        check_multi(acc)
+        (check_multi if "multi" in spec_ else check_reeval)(acc)
         for v in acc.violations:
             print("VIOLATION property={} replay={}".format(PROP, path))
             print(" ", v.symptom, v.detail[:600])
